@@ -48,6 +48,21 @@ class _CachingLoaderProtocol(Protocol):
     ) -> BoundTemplate: ...
 
 
+_MISSING = object()
+
+
+def _same_mapping(a: Mapping[str, object], b: Mapping[str, object]) -> bool:
+    """Return `True` if _a_ and _b_ hold the same objects under the same keys.
+
+    Equal is not enough: `{"x": 1} == {"x": True}`, but they render differently.
+    """
+    if a is b:
+        return True
+    if len(a) != len(b):
+        return False
+    return all(b.get(k, _MISSING) is v for k, v in a.items())
+
+
 class CachingLoaderMixin(ABC, _CachingLoaderProtocol):
     """A mixin class that adds caching to a template loader."""
 
@@ -101,7 +116,7 @@ class CachingLoaderMixin(ABC, _CachingLoaderProtocol):
         before, and they might render it again, so it is never modified. A
         request with other globals gets a shallow copy (sharing the parse tree).
         """
-        if globals is None or cached_template.globals == globals:
+        if globals is None or _same_mapping(cached_template.globals, globals):
             return cached_template
         template = copy(cached_template)
         template.globals = globals
